@@ -107,8 +107,8 @@ theorem joinTail_eq (l : Log) (otherE otherH : List Entry) (size : Int) :
           (joinClock (joinTrim (joinMerge l otherE otherH) size)).entries,
           (joinClock (joinTrim (joinMerge l otherE otherH) size)).nextIdx,
           (joinClock (joinTrim (joinMerge l otherE otherH) size)).heads) := by
-  unfold Generated.Go.joinTail
-  simp only [publish_fold, admitted_fold, findHeads_eq, maxClockTimeForEntries_eq, C19Gen.maxInt_eq]
+  unfold Generated.Go.joinTail Generated.Go.joinTail_join2 Generated.Go.joinTail_join1
+  simp only [gohelper, publish_fold, admitted_fold, findHeads_eq, maxClockTimeForEntries_eq, C19Gen.maxInt_eq]
   -- the three conditions under which a merged head is dropped: as the code tests them = as the model does
   have hfilter : (fun (e : Entry) =>
         !(List.foldl (fun nextsFromNewItems (k : Entry) =>
